@@ -61,6 +61,7 @@ Section NodeInd.
   Hypothesis HBool : forall b, P (NBool b).
   Hypothesis HStr : forall s, P (NStr s).
   Hypothesis HNone : P NNone.
+  Hypothesis HOther : forall d, P (NOther d).
   Hypothesis HTuple : forall mid ms, Forall (fun kv => P (snd kv)) ms -> P (NTuple mid ms).
   Hypothesis HBinop : forall mid c ln rn l r, P l -> P r -> P (NBinop mid c ln rn l r).
   Hypothesis HUnop : forall mid c pn a, P a -> P (NUnop mid c pn a).
@@ -82,6 +83,7 @@ Section NodeInd.
     | NBool b => HBool b
     | NStr s => HStr s
     | NNone => HNone
+    | NOther d => HOther d
     | NTuple mid ms => HTuple mid ms (go ms)
     | NBinop mid c ln rn l r => HBinop mid c ln rn l r (node_ind' l) (node_ind' r)
     | NUnop mid c pn a => HUnop mid c pn a (node_ind' a)
@@ -414,7 +416,7 @@ Proof. reflexivity. Qed.
 
 Lemma strip_reify_erase : forall n, strip (reify (erase n)) = strip (reify n).
 Proof.
-  induction n as [pid fam lo hi m s|v|z|b|s| |mid ms IH|mid c ln rn l r IHl IHr|mid c pn a IHa
+  induction n as [pid fam lo hi m s|v|z|b|s| |dd|mid ms IH|mid c ln rn l r IHl IHr|mid c pn a IHa
                  |mid lbl cls cargs attrs IH|mid k attrs IH|c cargs ex attrs IH|c fs attrs IH] using node_ind';
     try (destruct fam; reflexivity); try reflexivity.
   (* (the prior case: "id" is not one of the declared fields) *)
